@@ -22,6 +22,7 @@ func init() {
 			"R03.6 every binder error is returned or appended to the 422 accumulator, every bound value is validated when a validator exists, validation failures are recorded, and binder errors reach validation.result; R03.7 each location reads its own source (query: URL.Query(), header: Header, path: route params, formData: MultipartForm.Value / PostForm), an unknown location is an error, and 'multi' is honoured only where allowed; R03.8 index expressions of the binding helpers are in range. " +
 			"R03.3 also: the element type of an array is computed from the items' own type, format and nested items. " +
 			"R03.7 also: a scalar is bound from data[len(data)-1] (last occurrence) and path parameters from the router's PathUnescape of the captured text (decoded once). " +
+			"R03.7 also: the composite-segment test locates a parameter in the template as \"{name}\"; the value setters never build a 400 parse error; a binder is named after the declared parameter except where Bind re-labels it for struct targets. " +
 			"NOT decided: what strconv/swag denote for a literal, the validation rules themselves (go-openapi/validate), default substitution values.",
 		Assumptions: []string{"runtime.Gettable implementations report hasValue only with a non-empty value slice (Values.GetOK and RouteParams.GetOK are checked)"},
 		Run:         runC03,
